@@ -182,11 +182,16 @@ class Module:
         except KeyError:
             raise AnchorMissing(f"{self.rel}: no definition named {qual!r}") from None
 
-    def func(self, qual):
+    def func(self, qual, raw=False):
+        """The function's helper-transparent view (engine/inline.py; calls to helpers of the repository
+        are expanded in place, the call itself stays as a marker statement), or the source form with
+        ``raw=True`` / XV_FLATTEN=0."""
         n = self.get(qual)
         if not isinstance(n, FuncTypes):
             raise AnchorMissing(f"{self.rel}: {qual!r} is not a function")
-        return n
+        if raw or FLATTEN_DEPTH <= 0:
+            return n
+        return flat_view(self.repo, n)
 
     def cls(self, qual):
         n = self.get(qual)
@@ -314,10 +319,36 @@ class Repo:
 # ---------------------------------------------------------------------------
 
 
-def class_methods(cls_node):
-    return {
-        n.name: n for n in cls_node.body if isinstance(n, FuncTypes)
-    }
+def class_methods(cls_node, raw=False):
+    out = {n.name: n for n in cls_node.body if isinstance(n, FuncTypes)}
+    if raw or FLATTEN_DEPTH <= 0:
+        return out
+    m = getattr(cls_node, "_xv_mod", None)
+    if m is None:
+        return out
+    return {k: flat_view(m.repo, v) for k, v in out.items()}
+
+
+FLATTEN_DEPTH = int(os.environ.get("XV_FLATTEN", "0"))  # helper-transparent views are opt-in per rule (inline.flatten); 2 = everywhere (probe)
+_FLAT_CACHE: dict = {}
+EXPANSIONS: list = []  # (function, helper) pairs, for the evidence
+
+
+def flat_view(repo, fn):
+    """cached helper-transparent view of a source function"""
+    fn = getattr(fn, "_xv_flat_of", fn)
+    key = id(fn)
+    if key not in _FLAT_CACHE:
+        from . import inline
+
+        try:
+            new = inline.flatten(repo, fn, depth=FLATTEN_DEPTH)
+        except RecursionError:  # pragma: no cover
+            new = fn
+        _FLAT_CACHE[key] = (fn, new)
+        for _, h in getattr(new, "_xv_expanded", []) or []:
+            EXPANSIONS.append((f"{fn._xv_mod.rel}:{getattr(fn, '_xv_qual', fn.name)}", h))
+    return _FLAT_CACHE[key][1]
 
 
 def class_assigns(cls_node):
